@@ -20,7 +20,7 @@ STDLIB_ET = ("xml.etree.cElementTree", "xml.etree.ElementTree", "cElementTree",
              "elementtree.ElementTree", "xml.etree")
 PARSE_FUNCS = {"fromstring", "XML", "XMLID", "parse", "iterparse",
                "fromstringlist", "XMLParser", "XMLPullParser", "XMLTreeBuilder",
-               "TreeBuilder", "feed", "parseString", "make_parser",
+               "feed", "parseString", "make_parser",
                "ParserCreate", "parse_xml", "loads", "load", "include",
                "HTML", "XMLSchema", "XSLT", "RelaxNG", "fromstringlist",
                "pulldom", "expatreader", "create_parser"}
